@@ -16,6 +16,8 @@ CHECKS = {
              note='trusts TLC and the fingerprints (dense values, labels, qtotal, leg bytes)'),
  'C04': dict(text='The TLC behaviours of NpcProgram are replayed in two interpreter processes (TENPY_NO_CYTHON=1; extension rebuilt from the current _npc_helper.pyx by harness/buildext.py and injected through a meta-path finder); both must refine the specification and their canonical serialisations (blocks, legs, labels, qtotal, dtype, values, error class) must be identical.',
              note='the rebuilt binary is verified to be the loaded one; stale in-tree .so is never used; float32/MKL not covered'),
+ 'C05': dict(text='spec/Factor.tla builds block-sparse matrices over Gaussian integers (unsorted / repeated charge blocks, pipes on either side, non-zero qtotal, absent vs stored-zero blocks, planted ranks) and states each factorization as a relation whose data TLC computes exactly (per-sector ranks by fraction-free elimination, trace moments, expected charge multiset / qconj / qtotals of the new leg, finite exponential series); TLC checks FactorChargeRule, SectorsConsistent, ExpmRule etc. exhaustively; every enumerated case is replayed on the real svd/qr/lq/eigh/eig/eigvals/speigs/expm/pinv/polar/orthogonal_columns: structure compared exactly, characterising identities evaluated on the returned floats at 1e-9*scale.',
+             note='accuracy on ill-conditioned matrices not decided (small integer instances only); ARPACK path of speigs not modelled; trusts TLC and harness/factor.py'),
  'C14': dict(text='spec/TimeEvo.tla models time/schedule/truncation-error accounting of all time-evolution engines (Suzuki-Trotter schedules as exact symbolic polynomials, error bags); TLC checks TimeAdvance, ScheduleComposes, ErrAccounting over all orders/splits; real engine runs (TEBD 1/2/4/4_opt, QR-TEBD, TDVP 1/2-site, ExpMPO I/II, time-dependent variants) are recorded by run-time interposition and each trace is validated by TLC against spec/TraceTimeEvo.tla with every invariant evaluated at every event.',
              note='orders of convergence in dt and drift bounds are asymptotic numerical claims and not decided; trusts TLC, the recorder harness/timeevo.py'),
  'C20': dict(text='TLC exhaustively checks Events / DictCacheSeq / CacheThreaded (emit order, exact disconnect, dictionary refinement, sub-cache isolation, no deadlock, failure surfaces) for all operation sequences and interleavings up to a bound; every generated behaviour is replayed step by step into the real EventHandler / DictCache over Storage, PickleStorage, Hdf5Storage and, under a deterministic cooperative scheduler substituted for queue/threading, into the real ThreadedStorage + Worker.',
